@@ -240,6 +240,59 @@ class GenResult(list):
     context_manager = False
 
 
+class ExitStackModel:
+    """contextlib.ExitStack(): context managers entered through it are left, last first, when the stack is."""
+
+    def __init__(self, interp):
+        self.interp = interp
+        self.entered: list = []
+        self.callbacks: list = []
+
+    def vp_enter(self, interp):
+        return self
+
+    def enter_context(self, cm):
+        it = self.interp
+        self.entered.append(cm)
+        if isinstance(cm, GenResult) and cm.context_manager:
+            return cm[0] if cm else None
+        if isinstance(cm, SObj) and it.find_method(cm.cls, '__enter__') is not None:
+            return it.call_function(it.find_method(cm.cls, '__enter__'), [], {}, bound=cm)
+        if hasattr(cm, 'vp_enter'):
+            return cm.vp_enter(it)
+        return cm  # (files and the like: entering gives the object itself)
+
+    def callback(self, fn, *args, **kwargs):
+        self.callbacks.append((fn, args, kwargs))
+        return fn
+
+    def push(self, cm):
+        self.entered.append(cm)
+        return cm
+
+    def pop_all(self):
+        other = ExitStackModel(self.interp)
+        other.entered, other.callbacks = self.entered, self.callbacks
+        self.entered, self.callbacks = [], []
+        return other
+
+    def close(self):
+        self.vp_exit(self.interp, None)
+
+    def vp_exit(self, interp, exc) -> bool:
+        swallowed = False
+        for fn, args, kwargs in reversed(self.callbacks):
+            interp.call(fn, list(args), dict(kwargs), interp.cur_node)
+        self.callbacks = []
+        for cm in reversed(self.entered):
+            if isinstance(cm, Suppress) and exc is not None and interp.exc_matches(exc.exc_type, cm.names):
+                swallowed, exc = True, None
+            elif interp._exit(cm, exc):
+                swallowed, exc = True, None
+        self.entered = []
+        return swallowed
+
+
 class Suppress:
     """contextlib.suppress(*exceptions)"""
 
@@ -1073,6 +1126,8 @@ class Interp:
                 v = v[0] if v else None
             elif isinstance(v, SObj) and self.find_method(v.cls, '__enter__') is not None:
                 v = self.call_function(self.find_method(v.cls, '__enter__'), [], {}, bound=v)
+            elif hasattr(v, 'vp_enter'):
+                v = v.vp_enter(self)
             if item.optional_vars is not None:
                 self.assign(item.optional_vars, v, env, mi)
         try:
@@ -1099,6 +1154,8 @@ class Interp:
                 args = [Opaque('exception type'), exc, Opaque('traceback')] if exc is not None else [None, None, None]
                 r = self.call_function(ex, args, {}, bound=manager)
                 return exc is not None and r is True
+        if hasattr(manager, 'vp_exit'):
+            return bool(manager.vp_exit(self, exc)) and exc is not None
         return False
 
     def st_Match(self, st, env, mi):
